@@ -745,6 +745,7 @@ class InterpreterBase:
                             visitors: T.Optional[T.Iterable[AstVisitor]] = None) -> None:
         try:
             prev_subdir = self.subdir
+            prev_node = self.current_node
             self.subdir = subdir
             if visitors:
                 for visitor in visitors:
@@ -754,3 +755,4 @@ class InterpreterBase:
             pass
         finally:
             self.subdir = prev_subdir
+            self.current_node = prev_node
